@@ -24,7 +24,8 @@ BOUNDS = {'quick': {'full_code_point_sweep': 'Exchange.Declare.exchange, '
 ASSUMPTIONS = ['None (the statement does not say whether an absent value '
                'breaks a fixed-value constraint), values that differ from a '
                'fixed value only by identity (insist=0) and wrong-typed '
-               'names are left out']
+               'values (a str for ticket, an int for a name) are left out: '
+               'the statement does not fix the exception type for them']
 SELFTEST_TASK = ('props',)
 
 ALLOWED = set(spec_table.NAME_CHARS)
@@ -305,11 +306,11 @@ def run(task, ctx):
         if isinstance(k, tuple):
             fixed = k[1]
             if isinstance(fixed, bool):
-                vals = [False, True, 1, 'x']
+                vals = [False, True, 1]
             elif isinstance(fixed, int):
-                vals = [0, 1, 5, -1, 65535, 65536, 'x', True, False, '0']
+                vals = [0, 1, 5, -1, 65535, 65536, True, False]
             else:
-                vals = ['', '0', 'x', ' ', '00', 0, 'a' * 255]
+                vals = ['', '0', 'x', ' ', '00', 'a' * 255]
             for v in vals:
                 check_value(ctx, m, arg, k, v)
         elif k == 'vhost':
